@@ -3228,10 +3228,15 @@ def run(tier):
     ck.rule("E0.copy-ops", "move construction / move assignment / clone() / clone(other) / convert(other) of every filter class instantiate (driver tu/c06_copyops.cpp); a copy-like member that cannot be instantiated cannot hand the constraint over", 73)
     ck.rule("C06.state-transfer", "sibling agreement of the copy-like operations: every data member that the filter_* methods of a class read (transitively through its own accessors) is defined, in each of move-ctor / move-assign / clone() / clone(other) / convert(other), from the SAME member of the source (directly, through the class's constructor parameter that initialises it, or recomputed from transferred members). Broken => the copy imposes a different constraint than the original as soon as that member is not at its default (e.g. ignore_nans=true, sol_mean != 0)", 143)
     ck.rule("C06.container-reset", "assign-like operations (move-assign, clone(other), convert(other)) of a filter whose state is its container base (FilterSequence): after the operation the container is a function of the source only - every append / element write is dominated (CFG) by clear() or a whole-container assignment of the target, and appends happen in a forward traversal of the source. Broken => a re-used, non-empty target keeps old sub-filters and its old order; with overlapping sub-filters another prescribed value wins", 6)
+    ck.rule("C06.store-growth", "the storage path behind add() (the set-element operator of the sparse vector a filter keeps its entries in): when the arrays are "
+            "re-allocated, the number of items carried over from an old array equals the position at which the same function appends the next entry to that array "
+            "(both are 'valid items in the array': used_elements() for the index array, used_elements()*BlockSize for the value array of a blocked vector - one unit per array). "
+            "Broken => a filter that grows past its first allocation (> 1000 entries added one by one) keeps only a part of its prescribed values / normals, the rest is the fill pattern", 6)
     extra = ("-DC06_WIDE",) if wide else ()
     facts = featlib.extract("tu/c06_filters.cpp", files=FILES, extra=extra)
     analyse(ck, facts, "", True)
     analyse_copy_ops(ck, featlib.extract("tu/c06_copyops.cpp", files=FILES))
+    analyse_store_growth(ck)
     if wide:
         # breadth: the instantiations the repository's own filter tests produce (same rules, keys prefixed by the TU)
         for t in REPO_TUS:
@@ -3242,6 +3247,189 @@ def run(tier):
             f2 = featlib.extract(tp, files=FILES)
             analyse(ck, f2, os.path.basename(t)[:-4] + ":", False)
     return finish(ck, wide)
+
+
+# -------------------------------------------------------------------------------------------------------------------------
+# C06.store-growth: the set-element operator the filters' add() forwards to
+# -------------------------------------------------------------------------------------------------------------------------
+STORE_FILES = "|".join([R("kernel/lafem/sparse_vector"), R("kernel/lafem/[a-z_]*filter"), "/verif/tu/"])
+RAW_COPY = re.compile(r"(^|::)(copy|copy_n|memcpy|memmove|uninitialized_copy|uninitialized_copy_n)$")
+RAW_ALLOC = re.compile(r"allocate_memory|malloc|operator new")
+
+
+def _sg_strip(n):
+    while isinstance(n, dict) and n.get("k") == "Cast":
+        n = n.get("e")
+    return n
+
+
+def _sg_local_init(f, name):
+    """initialiser of a local that is declared once and never written afterwards, else None"""
+    inits = [v for v in f.nodes() if v.get("k") == "Var" and v.get("n") == name]
+    if len(inits) != 1 or inits[0].get("init") is None:
+        return None
+    for x in f.nodes():
+        if x.get("k") == "Assign" and _sg_strip(x.get("lhs")) is not None and _sg_strip(x["lhs"]).get("k") == "Ref" and _sg_strip(x["lhs"]).get("n") == name:
+            return None
+        if x.get("k") == "Un" and x.get("op") in ("++", "--", "&") and _sg_strip(x.get("e")) is not None and _sg_strip(x["e"]).get("k") == "Ref" and _sg_strip(x["e"]).get("n") == name:
+            return None
+    return inits[0]["init"]
+
+
+def _sg_canon(f, e, depth=0):
+    """canonical text of an integer expression: casts dropped, named temporaries expanded, sums and products flattened and sorted"""
+    e = _sg_strip(e)
+    if e is None:
+        return "?"
+    k = e.get("k")
+    if k == "Int":
+        return str(e.get("v"))
+    if k == "Ref":
+        if e.get("dk") == "local" and depth < 6:
+            li = _sg_local_init(f, e.get("n"))
+            if li is not None:
+                return _sg_canon(f, li, depth + 1)
+        return e.get("n")
+    if k == "Bin" and e.get("op") in ("+", "*"):
+        parts, todo = [], [e]
+        while todo:
+            x = _sg_strip(todo.pop())
+            if x is not None and x.get("k") == "Ref" and x.get("dk") == "local" and depth < 6 and _sg_local_init(f, x.get("n")) is not None:
+                x = _sg_strip(_sg_local_init(f, x.get("n")))
+            if x is not None and x.get("k") == "Bin" and x.get("op") == e["op"]:
+                todo += [x["lhs"], x["rhs"]]
+            else:
+                parts.append(_sg_canon(f, x, depth + 1))
+        parts = [p_ for p_ in parts if not (e["op"] == "*" and p_ == "1") and not (e["op"] == "+" and p_ == "0")]
+        return "(" + e["op"].join(sorted(parts)) + ")" if len(parts) != 1 else parts[0]
+    if k == "Bin":
+        return "(%s%s%s)" % (_sg_canon(f, e["lhs"], depth + 1), e["op"], _sg_canon(f, e["rhs"], depth + 1))
+    if k in ("MCall", "Call"):
+        nm = (e.get("n") or e.get("callee") or "?").rsplit("::", 1)[-1].lstrip("_")      # used_elements() / _used_elements(): one counter
+        ob = _sg_strip(e.get("obj"))
+        pre = "" if ob is None or ob.get("k") == "This" else _sg_canon(f, ob, depth + 1) + "."
+        return "%s%s(%s)" % (pre, nm, ",".join(_sg_canon(f, a, depth + 1) for a in e.get("a", [])))
+    if k == "Member":
+        b = _sg_strip(e.get("b"))
+        return e.get("n") if b is None or b.get("k") == "This" else _sg_canon(f, b, depth + 1) + "." + e.get("n")
+    return featlib.render(e)
+
+
+def _sg_array(f, e, depth=0):
+    """(member array name, offset expr or None) for `this->M.at(0)` / `M[0]` / `M.front()` / `M.at(0) + off` / a local bound to one of these"""
+    e = _sg_strip(e)
+    if e is None:
+        return None
+    if e.get("k") == "Bin" and e.get("op") == "+":
+        for a, b in ((e["lhs"], e["rhs"]), (e["rhs"], e["lhs"])):
+            r = _sg_array(f, a, depth + 1)
+            if r is not None and r[1] is None:
+                return (r[0], b)
+        return None
+    if e.get("k") == "Ref" and e.get("dk") == "local" and depth < 4:
+        li = _sg_local_init(f, e.get("n"))
+        return _sg_array(f, li, depth + 1) if li is not None else None
+    ob = None
+    if e.get("k") == "MCall" and e.get("n") in ("at", "front", "back", "operator[]"):
+        ob = _sg_strip(e.get("obj"))
+    elif e.get("k") == "OpCall" and e.get("op") == "[]" and e.get("a"):
+        ob = _sg_strip(e["a"][0])
+    elif e.get("k") == "Index":
+        ob = _sg_strip(e.get("b"))
+    if ob is not None and ob.get("k") == "Member" and ob.get("field") and (_sg_strip(ob.get("b")) or {}).get("k", "This") == "This":
+        return (ob["n"], None)
+    return None
+
+
+def analyse_store_growth(ck):
+    rule = "C06.store-growth"
+    try:
+        facts = featlib.extract("tu/c06_storage.cpp", files=STORE_FILES)
+    except (featlib.AnalysisBroken, OSError) as ex:
+        ck.incomplete(rule, "driver tu/c06_storage.cpp not extracted: %s" % str(ex)[:160])
+        return
+    ck.tu(facts)
+    for e in (facts.errors_in_repo() + facts.errors_outside_repo())[:3]:
+        ck.incomplete(rule, "driver tu/c06_storage.cpp: %s:%d %s" % (rel(e["file"]), e["line"], e["msg"]))
+    by_decl = {f.d["decl"]: f for f in facts.functions if "decl" in f.d and f.tk != "pattern" and f.body is not None}
+    targets = {}
+    for f in facts.functions:
+        if f.tk == "pattern" or f.body is None or f.name != "add" or not re.search(r"Filter", f.cls or ""):
+            continue
+        for n in f.nodes():
+            if n.get("k") in ("OpCall", "MCall") and re.search(r"SparseVector", n.get("ccls") or n.get("callee") or "") and n.get("cdecl") in by_decl:
+                g = by_decl[n["cdecl"]]
+                if any(x.get("k") in ("Call", "MCall") and RAW_ALLOC.search(x.get("callee") or "") for x in g.nodes()):
+                    targets.setdefault(n["cdecl"], (g, []))[1].append(re.sub(r"^FEAT::LAFEM::", "", f.cls or "?"))
+    if not targets:
+        ck.incomplete(rule, "no add() of a filter class reaches an allocating set-element operator of a sparse vector (driver tu/c06_storage.cpp)")
+        return
+    for decl, (g, users) in sorted(targets.items(), key=lambda kv: kv[1][0].cls):
+        cursors, transfers, opaque = {}, [], []
+        # the operator and the private helpers of its class it calls (a growth step moved into `_grow()`)
+        scope, seen_d = [g], {decl}
+        for h in scope:
+            for x in h.nodes():
+                if x.get("k") == "MCall" and x.get("cdecl") in by_decl and x["cdecl"] not in seen_d and (_sg_strip(x.get("obj")) or {}).get("k", "This") == "This" \
+                   and by_decl[x["cdecl"]].cls == g.cls and len(scope) < 8:
+                    seen_d.add(x["cdecl"])
+                    scope.append(by_decl[x["cdecl"]])
+        g0 = g
+        for g, n in [(h, n_) for h in scope for n_ in h.nodes()]:
+            if n.get("k") == "Assign" and n.get("op") == "=":
+                l = _sg_strip(n["lhs"])
+                if l is not None and (l.get("k") == "Index" or (l.get("k") == "OpCall" and l.get("op") == "[]")):
+                    base = l.get("b") if l.get("k") == "Index" else l["a"][0]
+                    idx = l.get("idx") if l.get("k") == "Index" else l["a"][1]
+                    arr = _sg_array(g, base)
+                    if arr is not None and arr[1] is None:
+                        cursors.setdefault(arr[0], set()).add(_sg_canon(g, idx))          # M.at(0)[pos] = val
+            if n.get("k") in ("Call", "MCall") and n.get("a") and re.search(r"(^|::)(set_memory|fill_n)$", n.get("callee") or ""):
+                d_arr = _sg_array(g, n["a"][0])
+                if d_arr is not None and d_arr[1] is not None:
+                    cursors.setdefault(d_arr[0], set()).add(_sg_canon(g, d_arr[1]))       # set_memory(M.at(0) + pos, value[, 1])
+                continue
+            if n.get("k") in ("Call", "MCall") and len(n.get("a", [])) == 3 and re.search(r"(^|::)(copy|copy_n|memcpy|memmove)$", n.get("callee") or "") \
+                    and not re.match(r"std::(copy|uninitialized_copy)$", n.get("callee") or ""):
+                dst, src, cnt = n["a"]
+                if re.search(r"copy_n$", n["callee"]):
+                    src, cnt, dst = n["a"]
+                d_arr, s_arr = _sg_array(g, dst), _sg_array(g, src)
+                if d_arr is not None and d_arr[1] is not None and s_arr is None:
+                    cursors.setdefault(d_arr[0], set()).add(_sg_canon(g, d_arr[1]))       # copy(M.at(0) + pos, val, len)
+                elif d_arr is not None and d_arr[1] is None and s_arr is None:
+                    cursors.setdefault(d_arr[0], set()).add("0")                          # first entry
+                elif s_arr is not None and s_arr[1] is None and d_arr is None:
+                    transfers.append((s_arr[0], (g, cnt), n))                               # copy(new, M.at(0), count)
+                else:
+                    opaque.append(n)
+            elif n.get("k") in ("Call", "MCall") and RAW_COPY.search(n.get("callee") or "") and len(n.get("a", [])) == 3:
+                # std::copy(first, last, dest)
+                a0, a1 = _sg_array(g, n["a"][0]), _sg_array(g, n["a"][1])
+                if a0 is not None and a1 is not None and a0[0] == a1[0] and a0[1] is None and a1[1] is not None:
+                    transfers.append((a0[0], (g, a1[1]), n))
+                else:
+                    opaque.append(n)
+        g = g0
+        arrays = sorted({m for m, _, _ in transfers})
+        key0 = re.sub(r"^FEAT::LAFEM::", "", g.cls or "?")
+        if not transfers:
+            ck.incomplete(rule, "%s::operator(): allocates but no transfer of the old array contents was recognised (%d raw copies not understood)" % (key0, len(opaque)))
+            ck.rule_counts[rule] = ck.rule_counts.get(rule, 0) + 1
+            continue
+        for m in arrays:
+            key = "%s::operator()/%s" % (key0, m)
+            cur = {c for c in cursors.get(m, set()) if c != "0"}
+            mine = [(cnt, n) for mm, cnt, n in transfers if mm == m]
+            if not cur:
+                ck.incomplete(rule, "%s: the position at which the function appends to %s was not recognised" % (key, m))
+                ck.rule_counts[rule] = ck.rule_counts.get(rule, 0) + 1
+                continue
+            bad = [(cnt, n) for cnt, n in mine if _sg_canon(cnt[0], cnt[1]) not in cur]
+            ck.ob(rule, key, not bad,
+                  ("line %s carries %s items of %s over to the new array, but the function appends to %s at position %s: the two disagree on how many items the array holds "
+                   "(reached from add() of %s)" % (bad[0][1].get("l"), _sg_canon(bad[0][0][0], bad[0][0][1]), m, m, " / ".join(sorted(cur)), ", ".join(sorted(set(users))[:3])))
+                  if bad else "carried over: %s = append position" % " / ".join(sorted(cur)), g.file, mine[0][1].get("l"))
 
 
 def analyse(ck, facts, prefix, driver):
